@@ -133,6 +133,8 @@ class MultiCtl(BaseMultiCtl, Module):
             return
         for i, to_mod in enumerate(self.out_links):
             mapping = self.mappings.values[i]
+            if mapping.controller == 0:
+                continue  # no destination controller mapped for this link
             mod = self.parent.modules[to_mod]
             ctl = list(mod.controllers.values())[mapping.controller - 1]
             vt = ctl.value_type
